@@ -91,6 +91,17 @@ class Ctx:
     def note(self, text):
         self.notes.append(text)
 
+    def run_rule(self, rule):
+        """Run one rule; a rule whose analysis breaks (vanished anchor, floor, unmodelled construct) does not
+        stop the others - what the other rules report stays valid.  Returns the rule's extra dict or None."""
+        try:
+            return rule(self)
+        except F.AnalysisBroken as e:
+            if not hasattr(self, "broken"):
+                self.broken = []
+            self.broken.append("%s: %s" % (getattr(rule, "__name__", "rule"), e))
+            return None
+
 
 # --------------------------------------------------------------------------- known findings
 
